@@ -10,5 +10,6 @@ GNext ==
   \/ \E s \in Svcs, d \in Dirs : Uploaded(s, d) /\ H([a |-> "Uploaded", s |-> s, d |-> d])
   \/ \E s \in Svcs, d \in Dirs : Failed(s, d) /\ H([a |-> "Failed", s |-> s, d |-> d])
   \/ \E s \in Svcs, d \in Dirs : FetchFailed(s, d) /\ H([a |-> "FetchFailed", s |-> s, d |-> d])
+  \/ \E s \in Svcs, d \in Dirs, k \in {"CREATED", "RECEIVED"} : Notice(s, d, k) /\ H([a |-> "Notice", s |-> s, d |-> d, k |-> k])
 GSpec == GInit /\ [][GNext]_<<vars, hist>>
 ====
